@@ -77,6 +77,18 @@ func renderErr(err error) string {
 	if u, ok := err.(userErr); ok {
 		return "u" + strconv.Itoa(u.n)
 	}
+	// xerrors.Join (subscription.go:147): a join of one error is rendered as that error
+	if j, ok := err.(interface{ Unwrap() []error }); ok {
+		es := j.Unwrap()
+		if len(es) == 1 {
+			return renderErr(es[0])
+		}
+		parts := make([]string, len(es))
+		for i, e := range es {
+			parts[i] = renderErr(e)
+		}
+		return "j[" + strings.Join(parts, ";") + "]"
+	}
 	msg := err.Error()
 	// the three wrappers of errors.go are unexported; recognise them by prefix + Unwrap
 	for _, w := range []struct{ prefix, tag string }{{"ro.Observer: ", "ob"}, {"ro.Observable: ", "oe"}, {"ro.Subscription: ", "un"}} {
@@ -181,11 +193,42 @@ func renderDropped(n fmt.Stringer) string {
 
 type Recorder struct {
 	mu        sync.Mutex
+	held      []heldVal // slice/map values as delivered, with their rendering at delivery time
 	trace     []string
 	drops     []string
 	unhandled []string
 	inside    int32 // callbacks currently running
 	maxInside int32
+	// optional: run after the notification has been recorded (fault injection into the final observer)
+	afterN, afterE, afterC func()
+}
+
+// a delivered value that can alias operator state (slices, maps): kept to re-render at the end
+type heldVal struct {
+	v    any
+	snap string
+	idx  int
+}
+
+func (r *Recorder) hold(v any) {
+	k := reflect.ValueOf(v).Kind()
+	if k == reflect.Slice || k == reflect.Map {
+		r.mu.Lock()
+		r.held = append(r.held, heldVal{v, renderVal(v), len(r.trace)})
+		r.mu.Unlock()
+	}
+}
+
+// aliasCheck: "ok", or the index of the first delivered value that was modified after delivery
+func (r *Recorder) aliasCheck() string {
+	r.mu.Lock()
+	defer r.mu.Unlock()
+	for _, h := range r.held {
+		if renderVal(h.v) != h.snap {
+			return strconv.Itoa(h.idx)
+		}
+	}
+	return "ok"
 }
 
 func (r *Recorder) add(s string) {
@@ -210,9 +253,25 @@ func joinOrDash(l []string) string {
 // observer[T] returns the final observer that records into r.
 func observer[T any](r *Recorder) ro.Observer[T] {
 	return ro.NewObserverWithContext(
-		func(ctx context.Context, v T) { r.add("N" + renderVal(v) + "/" + renderCtx(ctx)) },
-		func(ctx context.Context, err error) { r.add("E" + renderErr(err) + "/" + renderCtx(ctx)) },
-		func(ctx context.Context) { r.add("C/" + renderCtx(ctx)) },
+		func(ctx context.Context, v T) {
+			r.hold(v)
+			r.add("N" + renderVal(v) + "/" + renderCtx(ctx))
+			if r.afterN != nil {
+				r.afterN()
+			}
+		},
+		func(ctx context.Context, err error) {
+			r.add("E" + renderErr(err) + "/" + renderCtx(ctx))
+			if r.afterE != nil {
+				r.afterE()
+			}
+		},
+		func(ctx context.Context) {
+			r.add("C/" + renderCtx(ctx))
+			if r.afterC != nil {
+				r.afterC()
+			}
+		},
 	)
 }
 
